@@ -501,7 +501,12 @@ def make_live_classes():
                         trade = self.trades_known[tr]
                     ot = t.get("ot", "L")
                     if ot == "L":
-                        order_type = LimitOrder(t["price"], t.get("size"), persistence_type=t.get("pers", "LAPSE"))
+                        lkw = {}
+                        if market.market_id in getattr(w, "line_markets", ()):
+                            from betfairlightweight.resources.bettingresources import LineRangeInfo
+
+                            lkw = dict(price_ladder_definition="LINE_RANGE", line_range_info=LineRangeInfo(marketUnit="u", interval=1, minUnitValue=0.5, maxUnitValue=9.5))
+                        order_type = LimitOrder(t["price"], t.get("size"), persistence_type=t.get("pers", "LAPSE"), **lkw)
                     elif ot == "LOC":
                         order_type = LimitOnCloseOrder(t["liab"], t["price"])
                     else:
@@ -603,7 +608,8 @@ class LiveWorld:
 
     MARKET_ID = "1.100000001"
 
-    def __init__(self, script, hooks=None, cfg=None, strategy_kw=None, async_place=False, fault_plan=None, transaction_limit=5000, strategies=("S0",), skip_strategies=(), budgets=None, exchange=None, markets=None):
+    def __init__(self, script, hooks=None, cfg=None, strategy_kw=None, async_place=False, fault_plan=None, transaction_limit=5000, strategies=("S0",), skip_strategies=(), budgets=None, exchange=None, markets=None, line_markets=()):
+        self.line_markets = tuple(line_markets)
         self.script = list(script)  # list of (strategy index, action)
         self.hooks = hooks
         self.cfg = dict(cfg or {})
@@ -724,7 +730,8 @@ class LiveWorld:
     def _make_book(self, mid, status="OPEN"):
         from betfairlightweight.streaming.cache import MarketBookCache
 
-        spec = simx.MarketSpec(market_id=mid, book0={1: {"atb": [[2.0, 10]], "atl": [[2.2, 10]]}, 2: {"atb": [[3.0, 10]], "atl": [[3.2, 10]]}}, status0=status, t0=self.clock_ms)
+        lkw = dict(ladder="LINE_RANGE", line=(0.5, 9.5, 1), betting_type="LINE", market_type="TOTAL_LINE") if mid in getattr(self, "line_markets", ()) else {}
+        spec = simx.MarketSpec(market_id=mid, book0={1: {"atb": [[2.0, 10]], "atl": [[2.2, 10]]}, 2: {"atb": [[3.0, 10]], "atl": [[3.2, 10]]}}, status0=status, t0=self.clock_ms, **lkw)
         line = json.loads(spec.gen([])[0][0])
         cache = MarketBookCache(mid, self.clock_ms, False, True, False)
         cache.update_cache(line["mc"][0], self.clock_ms, True)
